@@ -207,6 +207,220 @@ def blocks_leg(chk, repo, committed):
     return len(files)
 
 
+def multi_include_leg(chk, repo):
+    """the amalgamation expands every file once: a local file that the sources include more than once must be
+    protected against repeated inclusion (pragma once or an include guard), otherwise the header cannot mean
+    what the sources mean"""
+    root = os.path.join(repo, 'src', 'qtlogger')
+    allf = []
+    for d, dirs, fs in os.walk(root):
+        dirs[:] = [x for x in dirs if x != 'build' and not x.startswith('.')]
+        allf += [os.path.join(d, f) for f in fs]
+    by_base = {}
+    for f in allf:
+        by_base.setdefault(os.path.basename(f), []).append(f)
+    incl = {}
+    for f in allf:
+        if not f.endswith(('.h', '.cpp', '.inc', '.hpp', '.ipp', '.tpp')):
+            continue
+        txt = open(f, encoding='utf-8', errors='replace').read()
+        for ln, line in enumerate(txt.split('\n'), 1):
+            m = re.match(r'\s*#\s*include\s+"([^"]+)"', line)
+            if not m:
+                continue
+            inc = m.group(1)
+            cands = [os.path.normpath(os.path.join(os.path.dirname(f), inc)), os.path.normpath(os.path.join(os.path.dirname(f), '..', inc)),
+                     os.path.normpath(os.path.join(root, inc))]
+            tgt = next((c for c in cands if os.path.isfile(c)), None)
+            if tgt is None and len(by_base.get(os.path.basename(inc), [])) == 1:
+                tgt = by_base[os.path.basename(inc)][0]
+            if tgt:
+                incl.setdefault(tgt, []).append('%s:%d' % (os.path.relpath(f, repo), ln))
+    unguarded = []
+    for tgt, sites in sorted(incl.items()):
+        if len(sites) < 2:
+            continue
+        txt = open(tgt, encoding='utf-8', errors='replace').read()
+        code = re.sub(r'/\*.*?\*/', '', txt, flags=re.S)
+        code = '\n'.join(l for l in code.split('\n') if l.strip() and not l.strip().startswith('//'))
+        guarded = bool(re.search(r'^\s*#\s*pragma\s+once\b', code, re.M)) or \
+            bool(re.match(r'\s*#\s*ifndef\s+(\w+)\s*\n\s*#\s*define\s+\1\b', code)) or \
+            bool(re.match(r'\s*#\s*if\s+!\s*defined\s*\(?\s*(\w+)\s*\)?\s*\n\s*#\s*define\s+\1\b', code))
+        if not guarded:
+            unguarded.append((os.path.relpath(tgt, repo), sites))
+    chk.cov['local_files_included_more_than_once'] = sum(1 for t, s in incl.items() if len(s) > 1)
+    chk.cov['of_those_without_guard'] = len(unguarded)
+    for tgt, sites in unguarded[:3]:
+        chk.fail('%s is included %d times by the sources (%s) and has neither #pragma once nor an include guard: the single header '
+                 'expands it once only, so the later inclusions are empty in qtlogger.h' % (tgt, len(sites), ', '.join(sites[:4])),
+                 {'kind': 'multiply-included-file-expanded-once', 'file': tgt, 'include_sites': sites[:10],
+                  'how': "grep -c '^// %s$' /repo/qtlogger.h  (1 block, %d inclusions in the sources)" % (os.path.basename(tgt), len(sites))},
+                 kind='multiply-included-file-expanded-once')
+    return len(incl)
+
+
+LAYOUT_PROBE = '''// does including qtlogger.h change what the user's own code means?  Same structs before and after.
+#include <cstddef>
+struct B1 { char c; double d; };
+struct B2 { char c; int i; short s; long long l; };
+struct B3 { bool b; void *p; char t[3]; };
+struct B4 { short s; long double x; };
+#include "qtlogger.h"
+struct A1 { char c; double d; };
+struct A2 { char c; int i; short s; long long l; };
+struct A3 { bool b; void *p; char t[3]; };
+struct A4 { short s; long double x; };
+static_assert(sizeof(A1) == sizeof(B1) && alignof(A1) == alignof(B1), "struct { char; double; } is laid out differently after #include qtlogger.h");
+static_assert(sizeof(A2) == sizeof(B2) && alignof(A2) == alignof(B2), "struct { char; int; short; long long; } is laid out differently after #include qtlogger.h");
+static_assert(sizeof(A3) == sizeof(B3) && alignof(A3) == alignof(B3), "struct { bool; void *; char[3]; } is laid out differently after #include qtlogger.h");
+static_assert(sizeof(A4) == sizeof(B4) && alignof(A4) == alignof(B4), "struct { short; long double; } is laid out differently after #include qtlogger.h");
+static_assert(offsetof(A1, d) == offsetof(B1, d) && offsetof(A2, l) == offsetof(B2, l), "member offsets differ after #include qtlogger.h");
+#ifdef min
+#error qtlogger.h leaves a macro called min defined
+#endif
+#ifdef max
+#error qtlogger.h leaves a macro called max defined
+#endif
+int main() { return 0; }
+'''
+
+
+def layout_leg(chk, repo):
+    """a pragma (pack, ...) or macro left active at the end of the header changes the user's own declarations"""
+    tu = tempfile.mkdtemp(prefix='c20_lay_')
+    try:
+        src = os.path.join(tu, 'probe.cpp')
+        open(src, 'w').write(LAYOUT_PROBE)
+        ok, err = syntax_check(['-I' + repo] + qt_cflags() + [src])
+    finally:
+        shutil.rmtree(tu, ignore_errors=True)
+    chk.cov['user_code_layout_probe'] = 'unchanged by the include' if ok else err
+    if not ok:
+        chk.fail('including qtlogger.h changes the meaning of the user\'s own declarations that follow it: ' + err,
+                 {'kind': 'header-changes-user-code', 'compiler_says': err,
+                  'probe': 'struct P { char c; double d; } declared before and after #include "qtlogger.h": sizeof/alignof/offsetof must be equal',
+                  'how': 'see LAYOUT_PROBE in checks/c20.py; g++ -std=c++17 -fsyntax-only -I/repo $(pkg-config --cflags Qt5Core) probe.cpp'},
+                 kind='header-changes-user-code')
+    return 1
+
+
+# ---- behaviour: harnesses of other properties, library build vs header-only build, same inputs, same outputs
+def hx16(s):
+    if s is None:
+        return '~'
+    return s.encode('utf-16-be', 'surrogatepass').hex() or '-'
+
+
+def pattern_line(c):
+    f = [hx16(c['pat']), str(c['type']), hx16(c['msg']), hx16(c['cat']), hx16(c['file']), hx16(c['fn']), str(c['line']), str(len(c['attrs']))]
+    for k, t, v in c['attrs']:
+        f += [hx16(k), (t + hx16(v)) if t == 's' else (t + str(v))]
+    return ' '.join(f + ['0'])
+
+
+def behaviour_corpus(chk):
+    rng = chk.rng
+    pats = ['%{if-debug}D%{endif}%{if-info}I%{endif}%{if-warning}W%{endif}%{if-critical}C%{endif}%{if-fatal}F%{endif}|%{type}|%{message}',
+            '%{if-warning}warn: %{endif}%{message}', '[%{type:>8}] %{category}: %{message}', '%{message:*^12!} <%{user?}> %{line}',
+            '%{shortfile}:%{line} %{function} %{message:>6}', '%{if-critical}%{file}%{endif}%{if-debug}dbg%{endif} %{message:<4!}',
+            '%{type:.3} %{u?1,1}x%{message}', '%% %{message} %{if-info}i%{endif}%{if-nonsense}n%{endif}']
+    cases = []
+    for fn in sorted(os.listdir(os.path.join(vlib.VERIF, 'corpus', 'C12'))) if os.path.isdir(os.path.join(vlib.VERIF, 'corpus', 'C12')) else []:
+        try:
+            c = json.load(open(os.path.join(vlib.VERIF, 'corpus', 'C12', fn))).get('case')
+            if c and not c.get('env'):
+                cases.append(c)
+        except Exception:
+            pass
+    for p in pats:
+        for ty in range(5):
+            cases.append({'pat': p, 'type': ty, 'msg': rng.choice(['Hello', 'a', 'ab\u00e9\U0001F600cd', '']), 'cat': rng.choice(['default', 'net.http', 'app']),
+                          'file': '/a/b/c.cpp', 'fn': 'void f()', 'line': rng.randint(1, 999),
+                          'attrs': [] if rng.random() < 0.5 else [['user', 's', 'admin']]})
+    plines = []
+    for c in cases:
+        try:
+            plines.append(pattern_line(c))
+        except Exception:
+            pass
+    rules = ['net.warning=false', '*.debug=false', '*=false\n*.critical=true', 'app.*=false\napp.ui.info=true', 'net*.info=false\nnet.http=true',
+             '*.fatal=false', 'default.warning=false', 'x.debug=true\n*.debug=false', 'a*b=false', 'net.http.debug=false\n*.warning=false']
+    cats = ['net', 'net.http', 'app', 'app.ui', 'default', 'x', 'ab', 'a.b', '', 'network']
+    clines = []
+    cdir = os.path.join(vlib.VERIF, 'corpus', 'C15')
+    for fn in sorted(os.listdir(cdir)) if os.path.isdir(cdir) else []:
+        try:
+            for c in json.load(open(os.path.join(cdir, fn))).get('cases', []):
+                clines.append(hx16(c['rules']) + ' ' + ','.join(hx16(x) for x in c['categories']))
+        except Exception:
+            pass
+    for r in rules:
+        clines.append(hx16(r) + ' ' + ','.join(hx16(x) for x in cats))
+    return {'pattern': (plines, lambda o: ' '.join((o.split(' ') + [''] * 5)[i] for i in (0, 1, 4))), 'category': (clines, lambda o: o)}
+
+
+def build_variants(names):
+    """library and header-only builds of the named harnesses, in one make invocation (same rules as vlib.build_harness)"""
+    tg = [os.path.join(vlib.BUILD, 'h_' + n + v) for n in names for v in ('', '.hdr')]
+    with vlib.Lock('harness'):
+        rc, out, err = vlib.sh(['make', '-j%d' % min(8, vlib.NCPU), '-f', os.path.join(vlib.VERIF, 'harness', 'Makefile'),
+                                'REPO=' + vlib.REPO, 'BUILD=' + vlib.BUILD] + tg, cwd=os.path.join(vlib.VERIF, 'harness'), timeout=900)
+    if rc != 0:
+        raise RuntimeError((out + err)[-2000:])
+    return {n: (os.path.join(vlib.BUILD, 'h_' + n), os.path.join(vlib.BUILD, 'h_' + n + '.hdr')) for n in names}
+
+
+def unhex16(h):
+    try:
+        return bytes.fromhex(h).decode('utf-16-be', 'replace') if h not in ('-', '~') else ''
+    except ValueError:
+        return h
+
+
+def behaviour_leg(chk):
+    """header-only users get precisely the behaviour of the library build: the same harness built both ways must
+    print the same answers to the same inputs"""
+    corp = behaviour_corpus(chk)
+    names = [n for n in corp if os.path.exists(os.path.join(vlib.VERIF, 'harness', 'h_%s.cpp' % n))]
+    try:
+        exes = build_variants(names)
+    except RuntimeError as e:
+        chk.fail('a harness does not build header-only (or against the library): ' + str(e)[-400:],
+                 {'kind': 'header-only-build-fails', 'log': str(e)[-1500:]}, kind='header-only-build-fails')
+        return 0
+    n_cmp, n_diff = 0, 0
+    for n in names:
+        lines, canon = corp[n]
+        rc1, o_lib, e1 = vlib.run_lines(exes[n][0], lines, timeout=300)
+        rc2, o_hdr, e2 = vlib.run_lines(exes[n][1], lines, timeout=300)
+        if len(o_lib) != len(lines) or len(o_hdr) != len(lines):
+            chk.broke('harness h_%s did not answer every input (library %d, header-only %d of %d)' % (n, len(o_lib), len(o_hdr), len(lines)),
+                      {'kind': 'behaviour-harness', 'harness': n, 'stderr': (e1 + e2)[-400:]})
+            continue
+        first = None
+        for l, a, b in zip(lines, o_lib, o_hdr):
+            n_cmp += 1
+            if canon(a) != canon(b):
+                n_diff += 1
+                first = first or (l, a, b)
+        if first:
+            l, a, b = first
+            fields = l.split(' ')
+            human = {'pattern': unhex16(fields[0]), 'message_type_enum': fields[1], 'message': unhex16(fields[2])} if n == 'pattern' else \
+                    {'rules': unhex16(fields[0]), 'categories': [unhex16(x) for x in fields[1].split(',')]}
+            shown = (lambda o: unhex16(o.split(' ')[0])) if n == 'pattern' else (lambda o: o)
+            chk.fail('the header-only build answers differently from the library build (h_%s): input %s: library %r, header-only %r'
+                     % (n, json.dumps(human, ensure_ascii=True), shown(a), shown(b)),
+                     {'kind': 'header-only-behaviour-differs', 'harness': 'h_' + n, 'input_line': l, 'input': human,
+                      'library_output': a, 'header_only_output': b, 'library_readable': shown(a), 'header_only_readable': shown(b),
+                      'how': 'echo <input_line> | build/h_%s ; echo <input_line> | build/h_%s.hdr' % (n, n)},
+                     kind='header-only-behaviour-differs')
+    chk.cov['behaviour_inputs_compared'] = n_cmp
+    chk.cov['behaviour_differences'] = n_diff
+    chk.cov['behaviour_harnesses'] = ['h_' + n for n in names]
+    return n_cmp
+
+
 def configuration_leg(chk, repo, all_sources):
     """for the configuration without feature macros and for every single feature macro: the single header
     alone and the library sources must both compile or both fail (a feature whose system headers are not
@@ -480,7 +694,14 @@ def run():
         finally:
             shutil.rmtree(top, ignore_errors=True)
     checked += 1 if blocks_leg(chk, repo, committed) else 0
-    n_cfg = configuration_leg(chk, repo, all_sources=thorough)
+    checked += 1 if multi_include_leg(chk, repo) else 0
+    checked += layout_leg(chk, repo)
+    # the two expensive legs run side by side (8 compiler processes + make -j8)
+    with concurrent.futures.ThreadPoolExecutor(max_workers=2) as ex2:
+        f_b = ex2.submit(behaviour_leg, chk)
+        f_c = ex2.submit(configuration_leg, chk, repo, thorough)
+        checked += f_b.result()
+        n_cfg = f_c.result()
     checked += n_cfg
     if thorough:
         # the committed header at least compiles and links a trivial program
